@@ -104,7 +104,7 @@ def leaf_queries(I, a, leaf, py, sl):
         return [Query('rejected-implies-invalid', valid)]
     it = Item(items(py)['m::E'])
     bad = []
-    bad.append(z3.Not(all_fit))
+    fit_query = Query('accepted-enum-values-fit-the-base-type', z3.Not(all_fit))
     bad.append(z3.Not(default_ok))
     if len(it.fields) != n: bad.append(z3.BoolVal(True))
     else:
@@ -124,8 +124,7 @@ def leaf_queries(I, a, leaf, py, sl):
         bad.append(z3.Not(z3.Or(*marks)))
     if isinstance(it.defaultable, z3.ExprRef): bad.append(it.defaultable != defaultable)
     else: bad.append(defaultable != z3.BoolVal(bool(it.defaultable)))
-    q = [Query('accepted-enum-is-as-declared', z3.Or(*bad))]
-    return q
+    return [fit_query, Query('accepted-enum-is-as-declared', z3.Or(*bad))]
 
 
 def region_env(a, sl):
